@@ -1,3 +1,3 @@
 SPECIFICATION Spec
-INVARIANTS RoundTrip TypedOk ChainRoot
+INVARIANTS RoundTrip TypedOk ChainRoot LongLeft
 CHECK_DEADLOCK FALSE
